@@ -77,35 +77,36 @@ def _compute_thl_try_speciation(
     min_ltr = table.entry()
     min_rtr = table.entry()
 
+    # Full losses are charged while aggregating, so that each aggregate keeps
+    # the placements minimizing sub-cost plus losses (the two children of a
+    # speciation start one level below the root species)
     for left_child in left_species.traverse():
+        left_loss = loss_cost * (species_lca.distance(root_species, left_child) - 1)
         min_ltl.update(
             Candidate(
-                table[left_node][left_child].value(),
+                table[left_node][left_child].value() + left_loss,
                 left_child,
             )
         )
         min_rtl.update(
             Candidate(
-                table[right_node][left_child].value(),
+                table[right_node][left_child].value() + left_loss,
                 left_child,
             )
         )
 
     for right_child in right_species.traverse():
-        min_ltr.update(Candidate(table[left_node][right_child].value(), right_child))
-        min_rtr.update(Candidate(table[right_node][right_child].value(), right_child))
+        right_loss = loss_cost * (species_lca.distance(root_species, right_child) - 1)
+        min_ltr.update(
+            Candidate(table[left_node][right_child].value() + right_loss, right_child)
+        )
+        min_rtr.update(
+            Candidate(table[right_node][right_child].value() + right_loss, right_child)
+        )
 
     def spe_combinator(left, right):
         return Candidate(
-            spe_cost
-            + left.value
-            + right.value
-            + loss_cost
-            * (
-                species_lca.distance(root_species, left.info)
-                + species_lca.distance(root_species, right.info)
-                - 2
-            ),
+            spe_cost + left.value + right.value,
             MappingInfo(left.info, right.info),
         )
 
@@ -135,13 +136,22 @@ def _compute_thl_try_duplication_transfer(
     min_rtc = table.entry()
     min_rts = table.entry()
 
+    # Full losses on the conserved side are charged while aggregating, so that
+    # each aggregate keeps the placements minimizing sub-cost plus losses
     for other_species in species_lca.tree.traverse():
         if species_lca.is_ancestor_of(root_species, other_species):
+            conserv_loss = loss_cost * species_lca.distance(root_species, other_species)
             min_ltc.update(
-                Candidate(table[left_node][other_species].value(), other_species)
+                Candidate(
+                    table[left_node][other_species].value() + conserv_loss,
+                    other_species,
+                )
             )
             min_rtc.update(
-                Candidate(table[right_node][other_species].value(), other_species)
+                Candidate(
+                    table[right_node][other_species].value() + conserv_loss,
+                    other_species,
+                )
             )
         elif not species_lca.is_ancestor_of(other_species, root_species):
             min_lts.update(
@@ -154,40 +164,21 @@ def _compute_thl_try_duplication_transfer(
     # Try mapping as a duplication
     def dup_combinator(left, right):
         return Candidate(
-            dup_cost
-            + left.value
-            + right.value
-            + loss_cost
-            * (
-                species_lca.distance(root_species, left.info)
-                + species_lca.distance(root_species, right.info)
-            ),
+            dup_cost + left.value + right.value,
             MappingInfo(left.info, right.info),
         )
 
     # Try mapping as a horizontal transfer
-    def hgt_l_combinator(left, right):
+    def hgt_combinator(left, right):
         return Candidate(
-            hgt_cost
-            + left.value
-            + right.value
-            + loss_cost * species_lca.distance(root_species, left.info),
-            MappingInfo(left.info, right.info),
-        )
-
-    def hgt_r_combinator(left, right):
-        return Candidate(
-            hgt_cost
-            + left.value
-            + right.value
-            + loss_cost * species_lca.distance(root_species, right.info),
+            hgt_cost + left.value + right.value,
             MappingInfo(left.info, right.info),
         )
 
     table[root_node][root_species].update(
         *min_ltc.combine(min_rtc, dup_combinator),
-        *min_lts.combine(min_rtc, hgt_r_combinator),
-        *min_ltc.combine(min_rts, hgt_l_combinator),
+        *min_lts.combine(min_rtc, hgt_combinator),
+        *min_ltc.combine(min_rts, hgt_combinator),
     )
 
 
